@@ -66,10 +66,34 @@ def _v(clause, **detail):
     return {"clause": clause, "detail": detail}
 
 
+def _crosstalk(plan):
+    """Catalogued indels that were NOT planted but lie within 60 bp of a planted indel of the same kind and
+    length (the realigner attributes the planted indel's reads to them, see known findings)."""
+    g = plan["world"]["genes"][0]
+    units = plan["samples"]["s0"]["genes"][g["name"]]
+    shift = plan["world"]["hg38_shift"] if plan["build"] == "hg38" else 0
+    planted = set()
+    for u in units:
+        if u["type"] != "deletion":
+            planted |= set(W.unit_variants(g, u))
+    out = []
+    for k, v in g["variants"].items():
+        if k in planted or v["kind"] not in ("ins", "del"):
+            continue
+        n = len(v["alt"]) if v["kind"] == "ins" else len(v["ref"])
+        for p in planted:
+            w = g["variants"][p]
+            m = len(w["alt"]) if w["kind"] == "ins" else len(w["ref"])
+            if w["kind"] == v["kind"] and m == n and abs(w["g"] - v["g"]) <= 60:
+                out.append(list(W.expected_mutation(v, shift)))
+    return out
+
+
 def judge(plan, outcome):
     vs = []
     g = plan["world"]["genes"][0]
     units = plan["samples"]["s0"]["genes"][g["name"]]
+    xt = _crosstalk(plan)
     for i, r in enumerate(outcome["runs"]):
         env = {"solver": "plain" if i == 0 else f"adversary:{plan['advs'][i - 1]}", "units": units,
                "read_length": plan["world"]["reads"]["L"], "strand": g["strand"], "build": plan["build"]}
@@ -83,19 +107,31 @@ def judge(plan, outcome):
             continue
         if not r["planted_major_reported"]:
             vs.append(_v("planted combination of major star-alleles is not among the best solutions",
-                         planted=r["planted_majors"], reported=r["reported_majors"], **env))
+                         planted=r["planted_majors"], reported=r["reported_majors"],
+                         neighbouring_unplanted_indels=xt, **env))
         for k, s in enumerate(r["solutions"]):
             if s["variants"] != r["planted_variants"]:
                 got, want = Counter(map(tuple, s["variants"])), Counter(map(tuple, r["planted_variants"]))
                 vs.append(_v("a best solution's variants differ from the simulated haplotypes' variants",
                              solution=s["nice"], added=[list(x) for x in (got - want)][:4],
-                             lost=[list(x) for x in (want - got)][:4], score=s["score"], **env))
+                             lost=[list(x) for x in (want - got)][:4], score=s["score"],
+                             neighbouring_unplanted_indels=xt, **env))
                 break
     return vs
 
 
 def signature(v):
-    return {"clause": v["clause"]}
+    d = v["detail"]
+    sig = {"clause": v["clause"]}
+    xt = [tuple(x) for x in d.get("neighbouring_unplanted_indels") or []]
+    if xt:
+        if "added" in d:
+            # every wrongly added variant is such a neighbour (losses are the planted indel's own copies)
+            if d["added"] and all(tuple(a) in xt for a in d["added"]):
+                sig["kind"] = "neighbouring-indel-crosstalk"
+        else:
+            sig["kind"] = "neighbouring-indel-crosstalk"
+    return sig
 
 
 def shrink(plan):
